@@ -93,7 +93,12 @@ ORec == {Struct("Rec", <<Field("Next", "", {}, Ptr(RecT)), Field("V", "", {}, Pr
          Struct("Rec", <<Field("B", "", {}, Ptr(Struct("Rec", <<Field("A", "", {}, Ptr([k |-> "rec", up |-> 2])), Field("V", "", {}, Prim("int8"))>>))),
                          Field("W", "", {}, Prim("string"))>>),
          Struct("Rec", <<Field("Kids", "", {}, Slice(Struct("Rec", <<Field("Parent", "", {}, Ptr([k |-> "rec", up |-> 2])), Field("Sib", "", {}, Ptr(RecT))>>)))>>),
-         MapOf(Struct("Rec", <<Field("M", "", {}, MapOf(Struct("Rec", <<Field("Back", "", {}, Slice([k |-> "rec", up |-> 2]))>>)))>>))}
+         MapOf(Struct("Rec", <<Field("M", "", {}, MapOf(Struct("Rec", <<Field("Back", "", {}, Slice([k |-> "rec", up |-> 2]))>>)))>>)),
+         \* recursion that passes through no struct at all: defined array / slice / map types containing themselves
+         Named("Rec", Array(Ptr(RecT), 2)), Named("Rec", Slice(RecT)), Named("Rec", MapOf(RecT)), Named("Rec", Slice(Ptr(RecT))),
+         Named("Rec", Array(Ptr(Named("Rec", Array(Ptr([k |-> "rec", up |-> 2]), 3))), 1)),
+         Ptr(Named("Rec", Array(Ptr(RecT), 1))),
+         Struct("S", <<Field("R", "", {}, Named("Rec", Array(Ptr(RecT), 2))), Field("V", "", {}, Prim("int8"))>>)}
 \* a named type occurring several times is NOT a cycle
 OMany == {Struct("S", <<Field("A", "", {}, Inner), Field("B", "", {}, Inner), Field("C", "", {}, Slice(Inner)), Field("D", "", {}, Ptr(Inner))>>),
           Struct("S", <<Field("A", "", {}, MapOf(Inner)), Field("B", "", {}, Array(Inner, 2))>>)}
